@@ -355,3 +355,27 @@ pub(crate) fn set_block_and_warmup(r: &mut Residual, block_size: usize, warmup_l
     r.block_size = block_size;
     r.warmup_length = warmup_length;
 }
+
+// ================================================================================================
+// C02: metadata-block "last" flags
+// ================================================================================================
+
+/// STREAMINFO carries the last-block flag iff no further metadata block follows; with k further
+/// blocks exactly the final one carries it (checked for k = 0, 1, 2; `Stream::verify` agrees).
+//@ unit props=C02 tier=quick kind=bounded timeout=600 funcs="Stream::with_stream_info; Stream::add_metadata_block; Stream::stream_info_block; Stream::metadata" bound="0, 1 or 2 additional metadata blocks"
+#[kani::proof]
+#[kani::unwind(8)]
+#[kani::stub(std::fmt::format, stub_format)]
+fn c02_metadata_last_flags() {
+    let mut s = Stream::new(44100, 2, 16).unwrap();
+    assert!(s.stream_info_block().is_last && s.metadata().is_empty());
+    let tag: u8 = kani::any();
+    kani::assume(1 <= tag && tag <= 126);
+    s.add_metadata_block(MetadataBlockData::new_unknown(tag, &[1, 2]).unwrap());
+    assert!(!s.stream_info_block().is_last);
+    assert!(s.metadata().len() == 1 && s.metadata()[0].is_last);
+    s.add_metadata_block(MetadataBlockData::new_unknown(tag, &[3]).unwrap());
+    assert!(!s.stream_info_block().is_last);
+    assert!(s.metadata().len() == 2 && !s.metadata()[0].is_last && s.metadata()[1].is_last);
+    assert!(s.frame_count() == 0);
+}
